@@ -9,6 +9,19 @@ NOTE = ("Trusted: Lean 4.33 kernel (axioms propext, Classical.choice, Quot.sound
         "differential correspondence streams named here (agreement on generated inputs, not a proof of the tie). ")
 
 CLAIMS = {
+ 'C04': dict(
+   text="Lean theorems for ALL token lists and ALL strings: parser_decides_grammar (the model's parser accepts a token list iff its kinds are derivable from "
+        "`result` by the 28 productions of chords.y, taken as DATA regenerated from the .y file on every run: Derives <-> spelled-out language <-> "
+        "recursive-descent parser, soundness and completeness), tree_faithful / no_suffix_dropped (the tree lists in order exactly the tokens read, kind and "
+        "text; only the optional `_` is not recorded), empty_rejected, accepted_ends_closed (a text cut inside a chord or rest is rejected), lexer_total "
+        "(never hangs: fuel sufficiency with the generated EOF guards), no_silent_stop (the scanner's silent EOF cannot fire inside the input: generated rune "
+        "tables), accepts_iff, never_crashes. Decided directly on every run: goyacc regenerates the committed parser from chords.y (modulo header and //line). "
+        "Tie: the real lexer (token stream) on all strings over a 19-symbol alphabet up to length 3 (4) + 3,000 (40,000) generated/mutated texts; the real goyacc "
+        "parser vs the model's parser on ALL token strings over 15 token representatives up to length 4 (5: 813,616) + 4,000 (60,000) generated, mutated and "
+        "truncated texts, comparing the whole tree; `crd text conv` through the binary.",
+   note="goyacc's LALR construction is trusted (regenerated and differentially compared, not re-proved). The lexer/parser compose lazily in Go and eagerly in "
+        "the model; with the EOF guards in place both give the same outcome class (argued in DESIGN.md, checked by the tie).",
+   technique="Lean 4 proof: CFG derivations over regenerated grammar data <-> recursive-descent parser (soundness+completeness), lexer termination; goyacc regeneration; differential tie", ref="6 (C04)"),
  'C01': dict(
    text="Lean theorems for any instance list, any interval number, any accepted dictionary, every key with a scale, any track count: chord_pitches (Key.Apply "
         "= bass first: 60+tonic+degree+bass-12, then 60+tonic+degree+each interval of the symbol, in uint8 arithmetic always and without wrap inside the MIDI "
